@@ -5,6 +5,7 @@ import GoBatcher.Driver.HistMon
 import GoBatcher.Driver.Setters
 import GoBatcher.Driver.LeaseMgr
 import GoBatcher.Driver.LeaseMon
+import GoBatcher.Driver.Lease
 open GoBatcher.Driver
 
 structure Tot where
